@@ -894,7 +894,10 @@ where
                 let cell_ref = CellRef::from_raw(cell);
                 let size = cell_ref.total_size();
                 destination_offset -= size as usize;
-                self.write_item_to_offset(destination_offset as u64, cell_ref);
+                // The cell slides to the right inside the same page, so the source and the
+                // destination ranges overlap whenever it moves by less than its own size.
+                let dest = self.item_at_offset(destination_offset as u64);
+                std::ptr::copy(cell.as_ptr().cast::<u8>(), dest.as_ptr().cast::<u8>(), size);
             }
             self.slot_array_mut()[i] = destination_offset as u16;
         }
